@@ -116,6 +116,7 @@ def plan(tier):
             shards.append({"kind": "graphs", "assignment": "four", "n": 4, "part": p, "parts": 256})
     shards.append({"kind": "badrefs"})
     shards.append({"kind": "file-twins"})
+    shards.append({"kind": "scale"})
     shards += H.plan_shards(['nested-revisions', 'shared-arguments'])
     return shards
 
@@ -123,6 +124,17 @@ def plan(tier):
 def cases(shard, tier):
     if shard.get("kind") == "call-histories":
         yield from H.cases_of(shard)
+        return
+    if shard["kind"] == "scale":
+        for n in (5, 16, 17, 30, 60):
+            for op in ("rn", "rf-head", "rf-tail", "rf-middle"):
+                yield {"kind": "scale-chain", "n": n, "op": op}
+        for n in (3, 8, 9, 12):
+            for ref in ("missing-type", "missing-version", "missing-namespace"):
+                yield {"kind": "scale-many-roots", "n": n, "ref": ref}
+        for k in (1, 4, 5, 6, 9):
+            for where in ("two-lookup-roots", "lookup-root-extension"):
+                yield {"kind": "scale-kth-reference", "k": k, "where": where}
         return
     if shard["kind"] == "file-twins":
         for twin in ("legacy-extension", "port-prefix", "both"):
@@ -419,7 +431,83 @@ def check_file_twins(case, R):
         R.outcome("file-twins-" + ("rejected" if expect_reject else "accepted"))
 
 
+def check_scale(case, R):
+    """Beyond three of everything: dependency chains of up to 60 links read from either end, a dangling reference among a dozen root
+    namespaces, an ambiguous reference that is the k-th composite reference of its definition."""
+    from ..gen import scale as S
+
+    R.case(case, nontrivial=True, sample=False)
+    if case["kind"] == "scale-chain":
+        files, names, _prints = S.chain_namespace(case["n"])
+        n = case["n"]
+        if case["op"] == "rn":
+            o = api.read_namespace_tree(files, "cns")
+            got = None if o.error else [t["str"] for t in o.types]
+            want = names
+        else:
+            i = {"rf-head": 0, "rf-tail": n - 1, "rf-middle": n // 2}[case["op"]]
+            o = api.read_files_tree(files, ["cns/C%03d.1.0.dsdl" % i], ["cns"])
+            got = None if o.error else [[t["str"] for t in o.types], [t["str"] for t in o.transitive]]
+            want = [[names[i]], names[i + 1 :]]
+        if o.error is not None:
+            R.violation("valid-chain-rejected:%s" % o.error["cls"], "a reference resolves to the named definition through a chain of any length, whichever end is read first", case, observed=o.error, expected=want)
+        elif got != want:
+            R.violation("chain-resolved-wrongly", "every link resolves to exactly the named definition", case, observed=got, expected=want)
+        else:
+            # the nested type of the head is the whole chain, each link equal to the stand-alone read of that link
+            top = (o.types[0] if case["op"] != "rn" else o.types[0])
+            depth, cur = 0, top
+            while True:
+                nxt = [a for a in cur["attributes"] if a["name"] == "next"]
+                if not nxt:
+                    break
+                cur = nxt[0]["type"]
+                depth += 1
+            start = 0 if case["op"] in ("rn", "rf-head") else ({"rf-tail": n - 1, "rf-middle": n // 2}[case["op"]])
+            if depth != n - 1 - start:
+                R.violation("chain-resolved-wrongly", "every link resolves to exactly the named definition", case, observed=depth, expected=n - 1 - start)
+            else:
+                R.outcome("scale-ok")
+        return
+    if case["kind"] == "scale-many-roots":
+        files = {"rns/User.1.0.dsdl": {"missing-type": "lk3.Nope.1.0 x\n@sealed\n", "missing-version": "lk2.T.1.7 x\n@sealed\n", "missing-namespace": "nowhere.T.1.0 x\n@sealed\n"}[case["ref"]]}
+        lks = []
+        for i in range(case["n"]):
+            files["lk%d/T.1.0.dsdl" % i] = "@sealed\n"
+            lks.append("lk%d" % i)
+        o = api.read_namespace_tree(files, "rns", lks)
+        if o.error is None or not o.error["ide"]:
+            R.violation("dangling-reference-not-rejected-cleanly:%s" % (o.error["cls"] if o.error else "accepted"), "a missing reference is reported as InvalidDefinitionError, however many namespaces were searched", case, observed=o.error)
+        else:
+            R.outcome("scale-ok")
+        return
+    # the ambiguous reference is the k-th composite reference of the definition
+    k = case["k"]
+    files = {"lk/Foo.1.0.dsdl": "uint8 a\n@sealed\n"}
+    lks = ["lk"]
+    if case["where"] == "two-lookup-roots":
+        files["other/lk/Foo.1.0.dsdl"] = "uint16 b\n@sealed\n"
+        lks.append("other/lk")
+    else:
+        files["lk/Foo.1.0.uavcan"] = "uint16 b\n@sealed\n"
+    lines = []
+    for i in range(k - 1):
+        files["lk/Ok%d.1.0.dsdl" % i] = "uint8 v\n@sealed\n"
+        lines.append("lk.Ok%d.1.0 ok%d" % (i, i))
+    lines += ["lk.Foo.1.0 foo", "@sealed"]
+    files["rns/User.1.0.dsdl"] = "\n".join(lines) + "\n"
+    o = api.read_namespace_tree(files, "rns", lks)
+    if o.error is None:
+        R.violation("ambiguous-reference-resolved:kth-reference", "two definitions with the same name and version are reported instead of being resolved arbitrarily", case, observed="accepted", expected="InvalidDefinitionError")
+    elif not o.error["ide"]:
+        R.violation("foreign-exception:%s@%s" % (o.error["cls"], o.error.get("culprit")), "ambiguous references are reported as InvalidDefinitionError", case, observed=o.error)
+    else:
+        R.outcome("scale-ok")
+
+
 def check_case(case, R):
+    if str(case.get("kind", "")).startswith("scale-"):
+        return check_scale(case, R)
     if case.get("kind") == "file-twins":
         return check_file_twins(case, R)
     if case.get("kind") == "call-history":
